@@ -98,6 +98,44 @@ def make_own(framing, kind, fcbyte, L):
     return own
 
 
+def make_leftover(framing, K, L):
+    """pre-state: K arbitrary bytes left in the framer's buffer by an earlier (timed-out) transaction; then a transaction
+    whose transport delivers ANY L bytes: what is returned must be justified by the bytes received during THIS call"""
+    def leftover(pre: bytes, u: int, rx: bytes) -> bool:
+        from pymodbus.factory import ClientDecoder
+        import pymodbus.factory as F
+        assume(len(pre) == K and len(rx) == L)
+        assume(1 <= u <= 247)
+        if framing == "rtu":
+            assume(rx[1] == 3)
+            assume(pre[1] == 3)
+        elif framing == "tcp":
+            assume(rx[7] == 3)
+        cl = make_client(framing, rx=rx)
+        spy = SpyDecoder(ClientDecoder())
+        cl.framer.decoder = spy
+        cl.framer._buffer = pre
+        req = F.ReadHoldingRegistersRequest(0, 1)
+        req.unit_id = u
+        try:
+            got = cl.execute(req)
+        except Exception:
+            return True
+        if is_error_object(got):
+            return True
+        pdu = pdu_of(spy, got)
+        if pdu is None:
+            return False
+        foreign_tid = (framing == "tcp") and (got.transaction_id != req.transaction_id)
+        foreign_fc = not ((got.function_code == 3) or (got.function_code == 0x83))
+        known("KF-client-foreign-reply-accepted", foreign_tid or foreign_fc)
+        if not JUST[framing](rx, pdu, got):
+            explain("the returned reply %r is not carried by a valid frame in the %d bytes received during this call (stale buffer %r)", bytes(pdu), L, bytes(pre))
+            return False
+        return True
+    return leftover
+
+
 def make_stale(framing):
     def stale(t0: bytes, u: bytes, v: bytes) -> bool:
         assume(len(t0) == 2 and len(u) == 2 and len(v) == 4)
@@ -165,6 +203,11 @@ def obligations(tier):
                     out.append(Obl("own.%s.%s.fc%d.len%d" % (framing, kind, fcb, L), make_own(framing, kind, fcb, L), timeout=T,
                                    contracts=contracts[framing], lemmas=lem[framing], findings=fnd,
                                    bounds="%s client, %s request (symbolic fields, unit 1..247, tid counter 0..65535), any %d reply bytes with function-code byte 0x%02X" % (framing, kind, L, fcb)))
+        if framing in ("tcp", "rtu"):
+            K, L = (5, 11) if framing == "tcp" else (4, 7)
+            out.append(Obl("leftover.%s.k%d" % (framing, K), make_leftover(framing, K, L), timeout=T,
+                           contracts=("crc-exact",) if framing == "rtu" else contracts[framing], lemmas=lem[framing],
+                           bounds="%s client whose framer still holds %d arbitrary bytes from an earlier transaction; then any %d reply bytes (function-code byte 3)" % (framing, K, L)))
         out.append(Obl("stale.%s" % framing, make_stale(framing), timeout=T, contracts=contracts[framing], lemmas=lem[framing],
                        whole_finding="KF-client-foreign-reply-accepted" if framing == "tcp" else None,
                        bounds="%s client: a stale valid frame (older transaction id / other unit) followed by the right reply; ids, units and values symbolic" % framing))
